@@ -74,6 +74,12 @@ CHECKS = {
    text="TLC proves InDomainAccepted / OutOfDomainRejected on the exact bin search (and derives the out-of-range bin index of an unclamped search for bounds >= 32 in float32) and on the open / closed domains of the Exp, Tanh, Sigmoid, Logit and CauchyCDF inverses with the probed element anywhere in a batch. Every state runs on the real code: outcome must be finite values or InputOutsideDomain exactly as specified; both spline directions, end points, outside points, tail bounds 31, 32, 1e3, 1e4 and float32-unrepresentable bounds (0.7, 3.3, 17.3, 1000.1).",
    design_ref="DESIGN.md section 4, C17",
    note="Outcome classes only (values are C01/C02). " + TRUSTED),
+
+ "C11": dict(
+   technique="Exact rational TLA+ model of the LU / QR / SVD / naive / Householder parameterisations (spec/LinAlg.tla over RatLin.tla, Rat.tla) model-checked by TLC; every parameter state loaded into the real classes and all accessors compared with each other and with the exact matrices",
+   text="TLC proves W W^-1 = I, |det W| = product of the diagonal parameters, orthogonality of Householder products and usability / pairwise cancellation of the initial Householder vectors for feature counts 1..3 and counts up to 7 (9). Each state is loaded into the real class (pre-images of softplus / exp, integer Householder vectors also rescaled by 1e-4 and 1e3): weight(), weight_inverse(), logabsdet(), the two combined accessors, matrix(), forward and inverse must be mutually consistent (self-checking) and equal to the exact model; default and random initialisations for 1..4 features must be finite and invertible.",
+   design_ref="DESIGN.md section 4, C11",
+   note="Feature counts <= 3 on the lattice (cofactor determinant); float64. " + TRUSTED),
 }
 REASONS = {}
 
